@@ -49,3 +49,30 @@ Theorem C11_curve_not_above_set : forall (root : R) (p : pump (T:=R)) (Q : R) (w
   (root <= current_speed p -> find_curve_limited_speed RN root p Q w <= current_speed p).
 Proof. intros. split; [apply LC11.curve_result|apply LC11.curve_not_above]. Qed.
 Print Assumptions C11_curve_not_above_set.
+
+(* torque- and power-limited searches never return a speed above the set speed (nor a negative one), whatever the
+   fuel, for every pump and flow whose required power, on (0, set speed], is positive, does not fall with speed and
+   grows at most like n^4 (power mode), resp. whose ratio to the available power does (torque mode: available power
+   proportional to n, so P/n must not fall and P/n^5 must not rise).  The affinity law gives P ~ n^3 x QP(Q/n), so
+   the premise is a statement about the elasticity of the QP curve only; the search checks it on the shipped pumps.
+   Proof: the iterates stay between the mirror images of the balanced and of the over-loaded speeds; the two
+   families of bounds meet at the balance point (least upper bound of the balanced speeds). *)
+From DHV Require Import LC11b.
+Local Open Scope R_scope.
+Theorem C11_power_limited_not_above_set : forall (p : pump (T:=R)) (Q : R) (w : bool) (fuel : nat) (r : R),
+  let n0 := current_speed p in let Pw := fun n => power_required RN p Q n w in
+  0 < n0 -> 0 < avail_power p -> (forall n, 0 < n <= n0 -> 0 < Pw n) ->
+  (forall a b, 0 < a -> a <= b -> b <= n0 -> Pw a <= Pw b) ->
+  (forall a b, 0 < a -> a <= b -> b <= n0 -> Pw b * a ^ 4 <= Pw a * b ^ 4) ->
+  find_power_limited_speed RN fuel p Q w = Some r -> 0 <= r <= n0.
+Proof. exact LC11b.power_limited_not_above. Qed.
+Print Assumptions C11_power_limited_not_above_set.
+
+Theorem C11_torque_limited_not_above_set : forall (p : pump (T:=R)) (Q : R) (w : bool) (fuel : nat) (r : R),
+  let n0 := current_speed p in let Pw := fun n => power_required RN p Q n w in let Pa := fun n => power_available RN p n in
+  0 < n0 -> (forall n, 0 < n <= n0 -> 0 < Pw n /\ 0 < Pa n) ->
+  (forall a b, 0 < a -> a <= b -> b <= n0 -> Pa b * Pw a <= Pa a * Pw b) ->
+  (forall a b, 0 < a -> a <= b -> b <= n0 -> Pa a * Pw b * a ^ 4 <= Pa b * Pw a * b ^ 4) ->
+  find_torque_limited_speed RN fuel p Q w = Some r -> 0 <= r <= n0.
+Proof. exact LC11b.torque_limited_not_above. Qed.
+Print Assumptions C11_torque_limited_not_above_set.
